@@ -233,7 +233,9 @@ def judge_programs(ck, progs, props, tag, describe=None, max_report=12, confirm=
                 v2, _ = judge(evs, props, tag=tag + "c", chunks=1)
                 conj2 = sorted({v["conjunct"] for v in v2 if v["prop"] in props})
             if not set(conj) & set(conj2):
-                raise HarnessError("verdict %s on %s not reproduced in a fresh process (got %s)" % (conj, key, conj2))
+                # never a violation; if nothing else is confirmed in this run the check ends with exit 2 (Check.finish)
+                ck.cov.setdefault("unreproduced", []).append("verdict %s on %s not reproduced in a fresh process (got %s)" % (conj, key[:300], conj2))
+                continue
             reported += 1
         cevs = [e for c, evs in split_cases(p.events) if c == cid for e in evs]
         ck.report(key, what, {"program": p.key, "source": p.src, "case": case, "conjuncts": conj,
